@@ -51,7 +51,9 @@ static void *c01_memset(void *d, int c, size_t n);
 
 #define W	((int)BN_DIGIT_BITS)
 #define DSZ	((size_t)BN_DIGIT_SIZE)
-#define MAXCAP	4		/* capacities of plain operands: 1..4 digits */
+#ifndef MAXCAP
+#define MAXCAP	4		/* capacities of plain operands: 1..4 digits (the full-capacity builds: BN_BIT_LEN = MAXCAP = 2 digits) */
+#endif
 
 /* ------------------------------------------------------------------ operand arena
  * Every bn_t handed to the library lives at the END of its own page, followed by a
